@@ -159,6 +159,7 @@ func TestC03(t *testing.T) {
 		}
 	}
 	rapid.Check(t, func(rt *rapid.T) {
+		noiseCall(rt) // one case in three is preceded by an unrelated, mostly failing call (see noise_test.go)
 		in, r0 := c03DrawInput(rt)
 		msg, herr, r := c03Check(in)
 		if r.Text != r0.Text {
